@@ -6,6 +6,7 @@ import TucanProofs.Lemmas.WriteReadAny
 import TucanProofs.Lemmas.Chain
 import TucanProofs.Lemmas.ChainTotal
 import TucanProofs.Lemmas.WrittenIsV3000
+import TucanProofs.Lemmas.WrittenReadsBySpec
 /-!
 # C09 — written molfiles read back as the same molecule, at any line length
 
@@ -90,6 +91,24 @@ theorem C09_written_is_v3000_file (g : Graph) (hw : g.WF)
     (∀ l3, lines[3]? = some l3 → EndsInWord l3 (cs "V3000")) ∧
     (∀ l ∈ lines, WR.NoBreak l) :=
   written_isV3000File g hw hlab hatoms hbonds hsize hdr hh lines hwr
+
+/-- **… and C07's specification, applied to it, says what the reader returns**: the closed forms `atomDictOf` /
+`bondDictOf` of the written entries (no star atom among them, every bond between two written atoms).  A second route
+to the reader's result for a written file, through the format's specification instead of the writer-specific lemmas
+behind `C09_write_read`; the two share only the line machinery. -/
+theorem C09_written_read_by_spec (g : Graph) (hw : g.WF)
+    (hlab : g.labels.Perm (List.range g.numberOfNodes))
+    (hatoms : ∀ n ∈ g.nodes, WritableAtom n)
+    (hbonds : ∀ n ∈ g.nodes, ∀ e ∈ n.nbrs, ∀ bt, e.2.btype = some bt → (intRepr bt).length ≤ intMaxStrDigits)
+    (hsize : (natRepr (g.numberOfNodes + g.numberOfEdges + 1)).length ≤ intMaxStrDigits)
+    (hdr : Str) (hh : GoodHeader hdr) (lines : List Str)
+    (hwr : graphToMolfileLines g hdr = .ok lines) :
+    graphAttributesV3000 lines =
+      .ok (atomDictOf (g.nodes.map writtenAtom), bondDictOf [] (g.edges.zipIdx.map writtenBond)) ∧
+    starsOf (g.nodes.map writtenAtom) = [] ∧
+    V3BondsOk (g.nodes.map writtenAtom) (g.edges.zipIdx.map writtenBond) :=
+  ⟨(written_reads_by_spec g hw hlab hatoms hbonds hsize hdr hh lines hwr).1,
+   (written_reads_by_spec g hw hlab hatoms hbonds hsize hdr hh lines hwr).2, written_bondsOk g hw⟩
 
 /-- **The graph read back is the written molecule**: for a molecule graph listed in any order, writing and
 reading back gives a graph related to it by `Iso SameIdent` (atom ↦ its listing position), hence with the same
